@@ -3,7 +3,8 @@
    to a canonical polynomial  lhs - rhs  (GE turned into LE, the sign of an equality normalised), so the
    comparison is insensitive to the association / order of the terms, to where a constant sits and to the
    order of the equations; coefficients are compared within k roundings at the magnitude [scale] (the code
-   multiplies and divides Python floats before GEKKO sees them).  The (in)equations are compared as multisets,
+   multiplies and divides Python floats before GEKKO sees them).  (In)equations without variables that hold
+   (0 <= 0, 3/4 <= 1) are dropped on both sides; the others are compared as multisets,
    the variable declarations by variable (bounds exactly).  Nothing here is used by a theorem.
    The case files evaluate [gen_system_fast] (rows of model.a tabulated once) - equal to [gen_system] by
    SystemFacts.gen_system_fast_same (C10_fast_generator_same). *)
@@ -111,6 +112,17 @@ Fixpoint cons_match (k : Z) (scale : Qc) (ms os : list (bool * poly)) : bool :=
   | x :: r => match take_match k scale x os with Some os' => cons_match k scale r os' | None => false end
   end.
 
+(* an (in)equation without variables that holds: it constrains nothing, on either side *)
+Definition trivial (k : Z) (scale : Qc) (c : bool * poly) : bool :=
+  let tol := qc k 1 * eps53 * Qcabs scale in
+  match snd c with
+  | [] => true
+  | [([], q)] => if fst c then Qcleb (Qcabs q) tol else Qcleb q tol
+  | _ => false
+  end.
+Definition nontrivial_cons (k : Z) (scale : Qc) (l : list (bool * poly)) : list (bool * poly) :=
+  filter (fun c => negb (trivial k scale c)) l.
+
 Definition optq_eqb (a b : option Qc) : bool :=
   match a, b with Some x, Some y => Qceqb x y | None, None => true | _, _ => false end.
 Definition decl_eqb (a b : vdecl) : bool :=
@@ -131,7 +143,8 @@ Fixpoint decls_match (ms os : list vdecl) : bool :=
 Definition system_cmp (k : Z) (scale : Qc) (model : option system) (vs : list vdecl) (cs : list con) : bool :=
   match model with
   | None => false
-  | Some s => decls_match (svars s) vs && cons_match k scale (map canon (scons s)) (map canon cs)
+  | Some s => decls_match (svars s) vs &&
+              cons_match k scale (nontrivial_cons k scale (map canon (scons s))) (nontrivial_cons k scale (map canon cs))
   end.
 Definition raises_cmp (model : option system) : bool := match model with None => true | Some _ => false end.
 
@@ -144,5 +157,6 @@ Definition system_diag (k : Z) (scale : Qc) (model : option system) (vs : list v
   match model with
   | None => 1
   | Some s => if negb (decls_match (svars s) vs) then 2
-              else if negb (cons_match k scale (map canon (scons s)) (map canon cs)) then 3 else 0
+              else if negb (cons_match k scale (nontrivial_cons k scale (map canon (scons s)))
+                                       (nontrivial_cons k scale (map canon cs))) then 3 else 0
   end.
